@@ -202,6 +202,11 @@ def execute(case, stats):
     if isinstance(back, Raised):
         raise Violation("profile:generated_text_invalid", f"generated profile does not parse: {str(back.exc)[:300]!r}; settings present={sorted(present)}; text={text[:600]!r}")
     d = lib(back.as_dict, what="as_dict")
+    if case["order"] % 3 == 0:
+        # generating again from the same configuration object must give the same profile
+        text2 = lib(lambda: c2profile.C2Profile.from_beacon_config(cfg).as_text(), what="second from_beacon_config on the same object")
+        if text2 != text:
+            raise Violation("profile:second_generation_differs", f"second profile generated from the same configuration object differs:\n{text2[:400]!r}\nvs\n{text[:400]!r}")
     toks = PL.tokenize(text)
     for i in range(len(toks) - 1):
         if toks[i] == "{" and toks[i + 1] == "}":
